@@ -8,6 +8,7 @@ package barrier
 //vx:pkg github.com/openbao/openbao/v2/internal/vault/barrier
 //vx:include ../common/barrier_models.go
 //vx:bodies context,encoding/binary,crypto/subtle,github.com/openbao/openbao/v2/internal/helper/namespace
+//vx:param prerot quick=0 thorough=2
 //vx:unwind 400
 
 import (
@@ -104,6 +105,13 @@ func VxRotateCrash() {
 	phys, root, val := vxInitStore(false)
 	b := vxNewBarrier(phys)
 	vxAssert("unseal ok", b.Unseal(ctx, root) == nil)
+	// earlier, completed rotations (each followed by a write under the new term)
+	pre := vxParam("prerot")
+	for i := 0; i < pre; i++ {
+		_, perr := b.Rotate(ctx)
+		vxAssert("earlier rotation ok", perr == nil)
+		vxAssert("write under an earlier term ok", b.Put(ctx, &logical.StorageEntry{Key: "secret/t" + string(rune('0'+i)), Value: []byte{byte(10 + i)}}) == nil)
+	}
 	crash := vxChoose("crash after k writes (4 = no crash)", 5)
 	if crash < 4 {
 		phys.crashAt = phys.writes + crash
@@ -111,10 +119,10 @@ func VxRotateCrash() {
 	term, err := b.Rotate(ctx)
 	if crash == 4 {
 		vxReach("rotate: completed")
-		vxAssert("rotate ok, term advanced", err == nil && term == 2)
+		vxAssert("rotate ok, term advanced", err == nil && term == uint32(2+pre))
 		vxAssert("write after rotate ok", b.Put(ctx, &logical.StorageEntry{Key: "secret/new", Value: []byte{5}}) == nil)
 		rec := phys.vals[phys.find("secret/new")]
-		vxAssert("new writes use the newest key term", rec[3] == 2 && rec[0] == 0 && rec[1] == 0 && rec[2] == 0)
+		vxAssert("new writes use the newest key term", rec[3] == byte(2+pre) && rec[0] == 0 && rec[1] == 0 && rec[2] == 0)
 		vxAssert("old record still readable by the same barrier", vxReadable(b, val))
 	} else {
 		vxReach("rotate: crashed")
@@ -123,6 +131,10 @@ func VxRotateCrash() {
 	r := vxNewBarrier(phys) // restart
 	vxAssert("after restart the root key unseals", r.Unseal(ctx, root) == nil)
 	vxAssert("after restart the earlier record is readable", vxReadable(r, val))
+	for i := 0; i < pre; i++ {
+		e, gerr := r.Get(ctx, "secret/t"+string(rune('0'+i)))
+		vxAssert("after restart every record written under an intermediate term is readable", gerr == nil && e != nil && len(e.Value) == 1 && e.Value[0] == byte(10+i))
+	}
 	if crash == 4 {
 		e, err := r.Get(ctx, "secret/new")
 		vxAssert("after restart the record written under the new term is readable", err == nil && e != nil && len(e.Value) == 1 && e.Value[0] == 5)
